@@ -460,6 +460,9 @@ func (vc *FnVC) compSortOf(m modItem) string {
 			_, s := vc.fieldComp(m.owner, m.field)
 			return s
 		}
+		if ct, ok := vc.compType[m.comp]; ok && ct.t != nil && ct.depth == 1 {
+			return "(Array Int " + vc.sortOf(ct.t) + ")"
+		}
 		return "(Array Int Int)"
 	default:
 		_, s := vc.elemComp(m.elem)
@@ -699,6 +702,10 @@ func (vc *FnVC) havocCall(in *ssa.Call, name string) {
 			vc.newErrs = append(vc.newErrs, results[0].S)
 		}
 	}
+	if vc.prog != nil && vc.prog.isPureObserver(name) {
+		vc.pureObserver(in, name, results)
+		return
+	}
 	if vc.isNoEffect(name) {
 		vc.havocked[name+" [no heap effect assumed]"] = true
 		return
@@ -732,6 +739,12 @@ func (vc *FnVC) havocCall(in *ssa.Call, name string) {
 		for _, a := range args {
 			vc.havocArg(a, in.Pos(), name)
 		}
+	}
+	// statically known callees outside the module (standard library, dependencies) cannot
+	// reach the client's world state (StateDB etc.): no observer version bump
+	if sc := c.StaticCallee(); sc != nil && sc.Pkg != nil && !strings.HasPrefix(sc.Pkg.Pkg.Path(), modPrefix) {
+		vc.assume("library callees outside the module change no client state other than through their arguments")
+		return
 	}
 	vc.noteMutation(name)
 	if c.IsInvoke() {
@@ -910,19 +923,42 @@ func (vc *FnVC) bumpAllVersions() {
 	vc.versionCtr[""] = vc.freshConst("ver", "Int")
 }
 
+// declObs declares an observer function. A pointer-valued observer returns an object that
+// existed before (or nil): it is deterministic, so it cannot hand out a new object per call.
+func (vc *FnVC) declObs(fn string, sorts []string, resSort string, resT types.Type) {
+	if vc.declSet[fn] {
+		return
+	}
+	vc.decl(fn, fmt.Sprintf("(declare-fun %s (%s) %s)", fn, strings.Join(sorts, " "), resSort))
+	if resT == nil {
+		return
+	}
+	if _, isPtr := resT.Underlying().(*types.Pointer); isPtr && resSort == "Int" {
+		var bs, as []string
+		for i, s := range sorts {
+			bs = append(bs, fmt.Sprintf("(x%d %s)", i, s))
+			as = append(as, fmt.Sprintf("x%d", i))
+		}
+		app := fmt.Sprintf("(%s %s)", fn, strings.Join(as, " "))
+		vc.decl("allocated0", "(declare-fun allocated0 (Int) Bool)")
+		vc.declAxiom(fn+"$old", fmt.Sprintf("(assert (forall (%s) (! (and (>= %s 0) (or (= %s 0) (allocated0 %s))) :pattern (%s))))", strings.Join(bs, " "), app, app, app, app))
+	}
+}
+
 // pureObserver: result is an uninterpreted function of (receiver, args, version).
 func (vc *FnVC) pureObserver(in *ssa.Call, name string, results []Term) {
 	c := &in.Call
 	var argTerms []string
 	var sorts []string
-	recv := ""
+	recv, recvSort := "0", "Int"
 	if c.IsInvoke() {
 		recv = vc.val(c.Value).S
 	} else if len(c.Args) > 0 {
-		recv = vc.val(c.Args[0]).S
+		rt := vc.val(c.Args[0])
+		recv, recvSort = rt.S, rt.Sort
 	}
 	argTerms = append(argTerms, recv, vc.versionOf(recv))
-	sorts = append(sorts, "Int", "Int")
+	sorts = append(sorts, recvSort, "Int")
 	start := 0
 	if !c.IsInvoke() {
 		start = 1
@@ -937,7 +973,7 @@ func (vc *FnVC) pureObserver(in *ssa.Call, name string, results []Term) {
 	}
 	for i, r := range results {
 		fn := fmt.Sprintf("obs$%s$%d", mangle(lastSeg(name)), i)
-		vc.decl(fn, fmt.Sprintf("(declare-fun %s (%s) %s)", fn, strings.Join(sorts, " "), r.Sort))
+		vc.declObs(fn, sorts, r.Sort, r.T)
 		vc.fact(fmt.Sprintf("(= %s (%s %s))", r.S, fn, strings.Join(argTerms, " ")))
 	}
 	vc.havocked[name+" [pure observer: deterministic between mutations, no heap effect]"] = true
